@@ -9,7 +9,8 @@
 EXTENDS Base64, Hex, Scalable, Url, Sums, Md5, Aes, TLC
 
 CONSTANTS MaxLen,        \* byte strings over Edge up to this length
-          MaxBin         \* byte strings over {0, 255} up to this length
+          MaxBin,        \* byte strings over {0, 255} up to this length
+          MaxWords       \* checksum inputs: up to this many words / bytes drawn from the carry-boundary alphabets
 
 VARIABLES c, T
 lvars == <<c, T>>
@@ -25,6 +26,13 @@ HexHostile == {48, 57, 97, 102, 65, 70, 103, 71, 32, 58, 128}    \* '0' '9' 'a' 
 HexInputs == SeqsUpTo(HexHostile, 3) \cup [1..4 -> {48, 70, 103, 32}]
 UrlHostile == {37, 52, 49, 71, 102, 32, 128}                     \* '%' '4' '1' 'G' 'f' ' ' 0x80
 UrlInputs == SeqsUpTo(UrlHostile, 4)
+\* checksum inputs at the carry boundaries: every sequence of <= MaxWords 16-bit words over SumWords, optionally followed
+\* by an odd byte, and every sequence of <= MaxWords bytes over SumBytes8 (FFFF FFFF 0001, C000 C000 7FFF, FF FF 01 ...)
+SumWords == {0, 1, 32767, 32768, 49152, 65534, 65535}     \* 0000 0001 7fff 8000 c000 fffe ffff
+SumTails == {<<>>, <<1>>, <<255>>}
+SumInputs16 == {BytesOfWords(ws) \o t : ws \in SeqsUpTo(SumWords, MaxWords), t \in SumTails}
+SumBytes8 == {0, 1, 127, 128, 254, 255}
+SumInputs8 == SeqsUpTo(SumBytes8, MaxWords)
 ScalBytes == {0, 1, 127, 128, 129, 255}
 ScalInputs == SeqsUpTo(ScalBytes, 3)
               \cup {[i \in 1..n |-> IF i = n THEN last ELSE IF i = 1 THEN first ELSE mid] :
@@ -66,11 +74,12 @@ PickScalBytes == Idle /\ \E b \in ScalInputs : Set("scald", b)
 PickUrlBytes == Idle /\ \E s \in ByteStrings \cup SeqsUpTo({37, 47, 46, 65, 126}, 3) : Set("urle", s)
 PickUrlChars == Idle /\ \E s \in UrlInputs : Set("urld", s)
 PickSum == Idle /\ \E x \in ByteStrings : Set("sum", x)
+PickSumBoundary == Idle /\ \E x \in SumInputs16 \cup SumInputs8 : Set("sumb", x)
 PickMd5 == Idle /\ \E i \in 1..Len(Md5Suite) : Set("md5", i)
 PickAes == Idle /\ \E i \in 1..Len(AesSuite) : Set("aes", i)
 PickSbox == Idle /\ Set("sbox", 0)
 LNext == PickB64Bytes \/ PickB64Chars \/ PickHexBytes \/ PickHexChars \/ PickScalValue \/ PickScalBytes
-         \/ PickUrlBytes \/ PickUrlChars \/ PickSum \/ PickMd5 \/ PickAes \/ PickSbox
+         \/ PickUrlBytes \/ PickUrlChars \/ PickSum \/ PickSumBoundary \/ PickMd5 \/ PickAes \/ PickSbox
 LSpec == LInit /\ [][LNext]_lvars
 
 \* ---- the laws ------------------------------------------------------------------------------------
@@ -119,6 +128,13 @@ LawSums == c.k = "sum" =>
    /\ CheckSum16(c.x) = CheckSum16(c.x \o (IF Len(c.x) % 2 = 1 THEN <<0>> ELSE <<>>))    \* odd byte is padded with zero
    /\ LET r == Crc16(c.x) IN Crc16(c.x \o <<r \div 256, r % 256>>) = 0               \* CRC-16/CCITT-FALSE residue
    /\ LET r == Crc32(c.x) IN Crc32(c.x \o <<r[2] % 256, r[2] \div 256, r[1] % 256, r[1] \div 256>>) = <<8516, 57116>>   \* residue ~0xdebb20e3 = 0x2144df1c
+\* one's-complement sum (end-around carry at every addition) = plain sum with the carries folded back until none is left;
+\* the appended checksum verifies; an odd byte counts as the high byte of a zero-padded word
+LawSumBoundary == c.k = "sumb" =>
+   /\ CheckSum16(c.x) = CheckSum16Folded(c.x) /\ CheckSum8(c.x) = CheckSum8Folded(c.x)
+   /\ CheckSum8(c.x \o <<CheckSum8(c.x)>>) = 0
+   /\ LET e == c.x \o (IF Len(c.x) % 2 = 1 THEN <<0>> ELSE <<>>)  s == CheckSum16(c.x) IN
+        CheckSum16(e) = s /\ CheckSum16(e \o <<s \div 256, s % 256>>) = 0
 CheckValues ==
    /\ Crc16(Check9) = 10673                                                          \* 0x29b1
    /\ Crc32(Check9) = <<52212, 14630>>                                               \* 0xcbf43926
@@ -126,6 +142,9 @@ CheckValues ==
    /\ CheckSum16(<<0, 1, 242, 3, 244, 245, 246, 247>>) = 8717                        \* RFC 1071 section 3: sum ddf2, checksum 220d
    /\ CheckSum8(<<>>) = 255 /\ CheckSum16(<<>>) = 65535
    /\ CheckSum8(<<255, 1>>) = 254 /\ CheckSum8(<<128, 128>>) = 254                   \* end-around carry
+   /\ CheckSum16(<<255, 255, 255, 255, 0, 1>>) = 65534                                \* ffff+ffff+0001: the fold carries twice
+   /\ CheckSum16(<<192, 0, 192, 0, 127, 255>>) = 65534 /\ CheckSum8(<<255, 255, 1>>) = 254
+   /\ AtFoldBoundary16(<<255, 255, 255, 255, 0, 1>>) /\ AtFoldBoundary8(<<255, 255, 1>>)
 LawCheckValues == c.k = "sum" /\ c.x = <<>> => CheckValues
 LawMd5 == c.k = "md5" => Md5(Md5Suite[c.x][1]) = Md5Suite[c.x][2]
 LawAes == c.k = "aes" => LET t == AesSuite[c.x] IN
